@@ -27,10 +27,10 @@ theorem pullSpec_fail (f : Facts) (pre sent : Bytes) (e : FErr) (h : e ≠ .ok) 
     cases e <;> simp at h hd ht
 
 /-- success of `pullOnce` on a replica without final file puts a complete file at the final path -/
-theorem pullOnce_ok_complete (f : Facts) (content : Bytes) (resume : Bool) {r : Rep} (o : Outcome)
+theorem pullOnce_ok_complete (f : Facts) (hpo : f.promoteAfterVerdict = true) (content : Bytes) (resume : Bool) {r : Rep} (o : Outcome)
     (hr : r.final = none) (hok : (pullOnce H f content resume r o).err = .ok) :
     Complete H content (pullOnce H f content resume r o).rep := by
-  obtain ⟨pre, hpre, _, heq⟩ := pullOnce_eq H f content resume o hr
+  obtain ⟨pre, hpre, _, heq⟩ := pullOnce_eq H f hpo content resume o hr
   rw [heq] at hok ⊢
   simp only at hok ⊢
   have hf := fetch_ok H hok
@@ -41,12 +41,32 @@ theorem pullOnce_ok_complete (f : Facts) (content : Bytes) (resume : Bool) {r : 
   · subst h; simp
   · omega
 
-theorem stepOK_any (f : Facts) (content : Bytes) :
+/-- step order: while a `pullOnce` is running — at the point where its write goroutine has finished
+and before any cleanup — the final path is empty or already holds the verified file -/
+theorem pullOnce_mid_good (f : Facts) (hpo : f.promoteAfterVerdict = true) (content : Bytes)
+    (resume : Bool) {r : Rep} (o : Outcome) (hr : r.final = none) :
+    GoodFinal H content (pullOnce H f content resume r o).mid := by
+  by_cases hok : (pullOnce H f content resume r o).err = .ok
+  · have hc := pullOnce_ok_complete H f hpo content resume o hr hok
+    obtain ⟨pre, _, _, heq⟩ := pullOnce_eq H f hpo content resume o hr
+    rw [heq] at hok hc ⊢
+    simp only at hok hc ⊢
+    rw [hok] at hc ⊢
+    have : midSpec pre (fetch H content pre false o).sent FErr.ok =
+        pullSpec f pre (fetch H content pre false o).sent FErr.ok := by simp [midSpec, pullSpec]
+    rw [this]; exact hc.good
+  · obtain ⟨pre, _, _, heq⟩ := pullOnce_eq H f hpo content resume o hr
+    rw [heq] at hok ⊢
+    simp only at hok ⊢
+    apply goodFinal_of_none
+    simp [midSpec, hok]
+
+theorem stepOK_any (f : Facts) (hpo : f.promoteAfterVerdict = true) (content : Bytes) :
     StepOK H f content (fun _ => True) (fun _ => True) where
   step := by
     intro r o resume _ hr _
-    refine ⟨pullOnce_ok_complete H f content resume o hr, fun hne => ⟨?_, trivial⟩⟩
-    obtain ⟨pre, _, _, heq⟩ := pullOnce_eq H f content resume o hr
+    refine ⟨pullOnce_ok_complete H f hpo content resume o hr, fun hne => ⟨?_, trivial⟩⟩
+    obtain ⟨pre, _, _, heq⟩ := pullOnce_eq H f hpo content resume o hr
     rw [heq] at hne ⊢
     exact (pullSpec_fail f pre _ _ hne).1
 
@@ -54,13 +74,13 @@ theorem stepOK_any (f : Facts) (content : Bytes) :
 def PartShort (content : Bytes) (r : Rep) : Prop :=
   ∀ p, r.part = some p → p.length < content.length
 
-theorem stepOK_delete (f : Facts) (content : Bytes) (hdel : f.deleteRemovesPart = true)
+theorem stepOK_delete (f : Facts) (hpo : f.promoteAfterVerdict = true) (content : Bytes) (hdel : f.deleteRemovesPart = true)
     (hne0 : content ≠ []) :
     StepOK H f content (PartShort content) (fun _ => True) where
   step := by
     intro r o resume _ hr hq
-    refine ⟨pullOnce_ok_complete H f content resume o hr, fun hne => ?_⟩
-    obtain ⟨pre, hpre, _, heq⟩ := pullOnce_eq H f content resume o hr
+    refine ⟨pullOnce_ok_complete H f hpo content resume o hr, fun hne => ?_⟩
+    obtain ⟨pre, hpre, _, heq⟩ := pullOnce_eq H f hpo content resume o hr
     rw [heq] at hne ⊢
     simp only at hne ⊢
     have hs := pullSpec_fail f pre (fetch H content pre false o).sent _ hne
@@ -129,12 +149,12 @@ theorem fetch_take_prefix {content pre : Bytes} {o : Outcome} (m : Nat)
     rw [hcat, hfull] at hne
     simp at hne
 
-theorem stepOK_prefix (f : Facts) (content : Bytes) (hne0 : content ≠ []) :
+theorem stepOK_prefix (f : Facts) (hpo : f.promoteAfterVerdict = true) (content : Bytes) (hne0 : content ≠ []) :
     StepOK H f content (PartPrefix content) NotCorrupt where
   step := by
     intro r o resume hA hr hq
-    refine ⟨pullOnce_ok_complete H f content resume o hr, fun hne => ?_⟩
-    obtain ⟨pre, hpre, _, heq⟩ := pullOnce_eq H f content resume o hr
+    refine ⟨pullOnce_ok_complete H f hpo content resume o hr, fun hne => ?_⟩
+    obtain ⟨pre, hpre, _, heq⟩ := pullOnce_eq H f hpo content resume o hr
     rw [heq] at hne ⊢
     simp only at hne ⊢
     have hs := pullSpec_fail f pre (fetch H content pre false o).sent _ hne
